@@ -251,10 +251,17 @@ def handleMsg (e : Exports) (p : Str) (iface : Option Str) (member : Str) : Repl
 
 /-! ### Several handlers alive in one process
 
-`DBusObjectHandler.__init__` creates `self.exports = {}` per instance and every method above reads and
-writes `self.exports` / `self.conn` only: a process with several handlers (several connections, or a
-connection and a bus) is a family of independent tables, each with its own connection.  Nothing in
-`introspection.generateIntrospectionXML` or the handler is kept at module or class level. -/
+MODELLING ASSUMPTION, not a fact established here: as read today, `DBusObjectHandler.__init__` creates
+`self.exports = {}` per instance, the methods above read and write `self.exports` / `self.conn` only, and
+nothing in `introspection.generateIntrospectionXML` or the handler is kept at module or class level.  `Multi`
+WRITES THAT ASSUMPTION DOWN: a family of independent tables (`Nat -> Exports`), a call on handler `k`
+touching `k`'s table and `k`'s connection only (`sentOn j := if j = k ...`).  Independence of the handlers is
+therefore true BY CONSTRUCTION of this model; nothing here could detect a table, memo or binding shared
+between handlers.  The guard that the code behaves like this is the correspondence stream `history-handlers`
+(harness/c16.py), nothing else.  NOT expressible in this model: the single-slot `DBusObject._objectHandler`
+binding (one instance exported on two handlers is bound to the last one), ONE mutable instance reachable from
+two tables (objects are values here, copied into each table), the class-level `_dbusIfaceCache` /
+`DBusProperty` fields, any module-level memo. -/
 namespace Multi
 
 /-- Handler number -> its `exports` dict. -/
